@@ -130,5 +130,5 @@ def svg_leaves(pic, el_id):
                 kind = "linear" if svg_eval.ln(g) == "linearGradient" else "radial"
             out.append(Leaf(sk, Mf, fill_at, kind, el.get("id")))
 
-    walk(pic.ids[el_id], aff.I, {"fill": "black"}, 1.0)
+    walk(pic.ids[el_id], aff.I, pic.inherited(pic.ids[el_id]), 1.0)
     return out
